@@ -27,8 +27,8 @@ structure Ctx2 (u : User α ε) (o : Oracles α δ) (c : Cfg α) : Prop where
   /-- `get_bounds` accepted the box: same length, `lb ≤ ub` -/
   box : BoxOk c.lb c.ub
   n : c.x0.length = c.lb.length
-  /-- the kernels return a vector of the size of `x` -/
-  xbar_len : ∀ x g m, (o.xbar x g m).length = x.length
+  /-- the kernels return a vector of the size of `x` (for a feasible `x`, the only ones they are called with) -/
+  xbar_len : ∀ x g m, InBox c.lb c.ub x → (o.xbar x g m).length = x.length
   /-- contract of the differencing routine: given a point in the box it evaluates only
   points in the box -/
   stencil : ∀ x f, InBox c.lb c.ub x → ∀ p ∈ u.fdPts x f, InBox c.lb c.ub p
@@ -191,7 +191,7 @@ theorem iterBody_step2 (u : User α ε) (o : Oracles α δ) (c : Cfg α) (hctx :
     obtain ⟨sfL, stp?, olog⟩ := r
     have ls := lineSearch_sum u o c _ _ _ _ _ _ sfL _ _ olog stp? hcoh hr
     have hd : (vsub (o.xbar s.x s.g s.mats) s.x).length = s.x.length := by
-      simp [vsub, vzip_length, hctx.xbar_len]
+      simp [vsub, vzip_length, hctx.xbar_len _ _ _ hi.x_in]
     have hlogL : LogExt (PointOk c) s.sf.log sfL.log := by
       refine ls.log.mono ?_
       rintro call ⟨stp, hc⟩
